@@ -58,6 +58,14 @@ namespace dllexports
             return {};
         }
     }
+    // Drops the scripts that are loaded into an instance that is not executing.
+    static void drop_pending_scripts(instance& ref)
+    {
+        if (ref.runtime->runtime_state() == sqf::runtime::runtime::state::empty)
+        {
+            ref.runtime->context_clear();
+        }
+    }
     enum class ops_set
     {
         none,
@@ -173,6 +181,8 @@ extern "C" {
         auto result = dllexports::with_instance_do(instance, [&](dllexports::instance& ref) -> int32_t {
             auto ppedStr = ref.runtime->parser_preprocessor().preprocess(
                 *ref.runtime, std::string_view(contents, length), { "dllexports"sv, {} });
+            // nothing is executed here: a script that an __EVAL of the text spawned must not wait for the next call
+            dllexports::drop_pending_scripts(ref);
 
             if (!ppedStr.has_value())
             { // there is no result to hand out; the diagnostics already went through the logger
@@ -206,6 +216,9 @@ extern "C" {
             {
                 return instance_running;
             }
+            // Whatever way the call ends, no script stays behind for the next call (the calls that do not execute,
+            // or fail before they do, would leave what an __EVAL of their text spawned)
+            struct on_return { dllexports::instance& ref; ~on_return() { dllexports::drop_pending_scripts(ref); } } drop_pending{ ref };
             ref.logger->call_data = call_data;
             auto ppedStr = ref.runtime->parser_preprocessor().preprocess(
                 *ref.runtime, std::string_view(code, length), { "dllexports"sv, {} });
